@@ -1,3 +1,4 @@
+pub mod filtersync;
 pub mod peersync;
 pub mod sampling;
 
@@ -6,6 +7,7 @@ use std::collections::HashMap;
 pub fn run(driver: &str, kv: &HashMap<String, String>) -> i32 {
     match driver {
         "peersync" => peersync::run(kv),
+        "filtersync" => filtersync::run(kv),
         "sampling" => sampling::run(kv),
         "mine-genesis" => mine_genesis(),
         _ => {
